@@ -616,7 +616,7 @@ fn hist_nonempty(v: &Value) -> Result<Vec<(u64, u64)>, String> {
 
 fn frac_stream(out: &mut CaseOut, rng: &mut Rng, thorough: bool) {
     use std::collections::BTreeMap;
-    let n = if thorough { 150 } else { 30 };
+    let n = if thorough { 150 } else { 22 };
     for ci in 0..n {
         let (interval, offset): (f64, f64) = *rng.pick(&[(0.1, 0.0), (0.3, 0.0), (2.5, 0.7), (0.1, 0.03), (0.7, 0.2), (0.3, 0.1), (1.1, 0.0), (0.25, 0.0), (0.05, 0.01)]);
         let lo: f64 = *rng.pick(&[0.5, 1.7, -2.3, 10.0, 0.9, 100.3]);
@@ -709,18 +709,18 @@ fn main() {
     tvh::quiet_panics();
     let mut rng = Rng::new(args.seed);
     let thorough = args.thorough();
-    let mut out = CaseOut::new(&args.out, HEADER, 40);
+    let mut out = CaseOut::new(&args.out, HEADER, 24);
 
-    let n_corpora = if thorough { 420 } else { 36 };
+    let n_corpora = if thorough { 420 } else { 30 };
     let reqs_per_corpus = if thorough { 8 } else { 6 };
     let mut tie_dependent = 0u64;
 
-    let n_keycut = if thorough { 60 } else { 8 };
+    let n_keycut = if thorough { 60 } else { 6 };
     for ci in 0..n_corpora + n_keycut {
         let keycut = ci >= n_corpora;
         let profile = rng.below(12);
         let n_docs = match ci % 6 { 0 => rng.range(1, 4) as usize, 1 => rng.range(5, 12) as usize, _ => rng.range(10, if thorough { 60 } else { 36 }) as usize };
-        let corpus = if keycut { let n = rng.range(90, 160) as usize; gen_keycut_corpus(&mut rng, n) } else { gen_corpus(&mut rng, n_docs, profile) };
+        let corpus = if keycut { let n = rng.range(90, 130) as usize; gen_keycut_corpus(&mut rng, n) } else { gen_corpus(&mut rng, n_docs, profile) };
         // filtering query: all documents or grp == g
         let filter_g: Option<&str> = if keycut { None } else { match ci % 3 { 0 => None, 1 => Some("a"), _ => Some("b") } };
         let matching = |d: &Doc| filter_g.map_or(true, |g| d.vals[5] == vec![Val::S(g.to_string())]);
